@@ -826,9 +826,15 @@ impl<'a> UserModel<'a> {
                     old_value: _,
                 } => self.model.set_frozen_columns(*sheet, *new_value)?,
                 Diff::DeleteSheet { sheet, old_data: _ } => {
+                    let sheet_count = self.model.workbook.worksheets.len() as u32;
                     self.model.delete_sheet(*sheet)?;
-                    if *sheet > 0 {
-                        self.set_selected_sheet(*sheet - 1)?;
+                    // The selection follows its sheet, as in `UserModel::delete_sheet`
+                    if let Some(view) = self.model.workbook.views.get_mut(&self.model.view_id) {
+                        if view.sheet > *sheet
+                            || (view.sheet == *sheet && *sheet + 1 == sheet_count)
+                        {
+                            view.sheet = view.sheet.saturating_sub(1);
+                        }
                     }
                 }
                 Diff::NewSheet { index, name } => {
